@@ -311,6 +311,17 @@ impl TryFrom<&[u8]> for Batch {
             buf = &buf[bytes_read..];
         }
 
+        if !buf.is_empty() {
+            // A serialized batch is exactly its header followed by the announced number of
+            // operations. Left over bytes mean that this is not (or not only) a batch e.g. a
+            // fragment of a larger log record that was mistaken for a record of its own.
+            return Err(RainDBError::Other(format!(
+                "The batch announces {} operations but {} bytes are left after parsing them.",
+                num_operations,
+                buf.len()
+            )));
+        }
+
         Ok(batch)
     }
 }
